@@ -1375,7 +1375,7 @@ class WBEMListener:
         self.logger.info("Starting callback thread")
         self._callback_thread = CallbackThread(
             target=self._callback_run,
-            args=(),
+            args=(self._ind_queue,),
             name='CallbackThread',
             daemon=False)
         self._callback_thread.start()
@@ -1612,13 +1612,18 @@ class WBEMListener:
             self.logger.info(
                 "Stopped threaded HTTPS server and its listener thread")
 
-    def _callback_run(self):
+    def _callback_run(self, ind_queue):
         """
         Thread runner function for the callback thread that delivers indications
         to the registered callback functions.
 
         This function runs a loop and only returns when the queue is emtpy and
         the callback thread's stop() method had been called.
+
+        The indication queue is passed in as an argument and must not be
+        accessed via self._ind_queue, because the thread that stops the
+        listener sets self._ind_queue to None while this thread may still be
+        delivering the last indication.
         """
         self.logger.info("Entering callback processing loop")
 
@@ -1626,7 +1631,7 @@ class WBEMListener:
             try:
 
                 # This raises queue.Empty when the timeout expires
-                queue_item = self._ind_queue.get(
+                queue_item = ind_queue.get(
                     block=True,
                     timeout=self.queue_get_timeout)
                 indication, host, msgid = queue_item
@@ -1637,7 +1642,7 @@ class WBEMListener:
                 # Really for delivering to multiple workers rather than
                 # this simple case of a single worker. However this
                 # keeps the queue clean.
-                self._ind_queue.task_done()
+                ind_queue.task_done()
 
             # If queue empty and stop event set break out of loop
             except queue.Empty:
